@@ -962,7 +962,13 @@ func (t *Tokenizer) readQuotedString(quote rune) (models.Token, error) {
 		next1, _ := utf8.DecodeRune(t.input[t.pos.Index+1:])
 		next2, _ := utf8.DecodeRune(t.input[t.pos.Index+2:])
 		if next1 == quote && next2 == quote {
-			return t.readTripleQuotedString(quote)
+			tok, err := t.readTripleQuotedString(quote)
+			if err == nil {
+				return tok, nil
+			}
+			// No closing triple quote: this is an ordinary literal that starts
+			// with a doubled (escaped) quote, e.g. '''' or '''a'.
+			t.pos = startPos
 		}
 	}
 
